@@ -63,9 +63,9 @@ CHECKS = {
             "Classic-dialect programs from the generator (defun, defun-inline with destructuring, defmacro templates, defconstant, if/list/qq, 1..40 parameters) are compiled by the real classic compiler, run by clvmr and compared with Lang.evalSrc (Lean); the same text with the cl21 sigil is compiled by the modern compiler and both builds must agree. Kernel-checked: the parameter-path assignment is correct for all patterns and argument values (shared with C01); the classic optimiser's soundness is C04's theorem set.",
             "Differential and generator-bounded for the classic compiler's macro/com/opt machinery; Lean kernel for the path algebra; Lang.evalSrc trusted as the meaning.",
             "DESIGN.md §4 C03"),
-    "C13": ("Lean 4 proof of path_to_function (sound and complete for every tree and hash function) + oracle run on real symbol tables",
-            "Proved for all CLVM trees and any hash function: the path path_to_function returns selects a subtree with the requested tree hash, and it returns one whenever such a subtree exists. The rest of the property is decided on the implementation: for generated programs x modern dialects x {unoptimised, CLI -O off/on}, every symbol entry whose key is the hash of code occurring in the emitted program must name a source function (or a compiler-synthesised one), record that function's argument list, and the extracted code run on (ENV . args) by clvmr must equal the source-level call evaluated by Lang.evalSrc; unoptimised builds must have an entry with code present for every reachable non-inline function.",
-            "Tree-hash injectivity is not assumed (the oracle compares behaviour, not hashes); symbol generation inside codegen is not modelled; classic symbol files are not covered yet.",
+    "C13": ("Lean 4 proof on the byte-tied core compiler model (symbol table, extraction and call through it) + correspondence of table, path and call program against the real compiler + oracle on real symbol tables",
+            "Kernel-checked for all CLVM trees and any hash function: path_to_function is sound and complete. Kernel-checked for every well-formed program of the core language (mod, possibly recursive non-inline functions with arbitrary parameter patterns, operators, lazy if, calls) in non-optimising builds, for any hash function H: the table reported next to the emitted program (add_defun's <hash>, <hash>_arguments, <hash>_left_env, __chia__main_arguments) is true of it — (truth, assuming tree-hash injectivity, shown satisfiable) a tree whose hash is a key is exactly the compiled code of the named live function, occurs in the program, the recorded arguments are that function's, and the program compose_run_function builds (extract_program_and_env, path_to_function, rewrite_in_program) evaluates to v whenever the source-level call returns v; (presence) every live function's code occurs at the path the environment layout gives, path_to_function finds it and its three entries exist, its own unless another live function has the same code hash; (no dead entries) tree-shaken functions are never named. The model (table, emitted program, path, rewritten call program; H = sha256) must equal the real compile_file / CLI output and the real extraction chain on generated core programs with 0..8 functions, duplicated functions and hand-written witnesses. Everything else (all modern dialects, -O on/off, inlines, lets, lambdas, constants) is decided by the oracle on the implementation: hashes, names, argument lists and runs (code on (ENV . args) and the real rewrite_in_program output) against Lang.evalSrc. Open finding C13-F1: functions compiled to identical code share one key, so the earlier one has no entry (kernel-checked as identical_code_loses_an_entry).",
+            "Theorems are partial: core language, non-optimising build; the truth clause assumes tree-hash injectivity; source_file is not modelled; extract_program_and_env / rewrite_in_program are modelled on the CLVM value and tied on compiled programs only; optimising builds and the classic compiler are oracle-only; Lang.evalSrc is trusted as the meaning for non-core programs.",
             "DESIGN.md §4 C13"),
     "C02": ("differential run of every option set / dialect of the real compiler against each other and against the Lean source semantics; Lean theorems for the shared path algebra (pass theorems staged)",
             "For generated programs of every dialect: all builds that differ only in optimisation (CLI -O, compile_file optimize x frontend_opt x classic post-optimiser) and, within a value-semantics group, in dialect sigil are compiled by the real compiler and run by clvmr; every pair of value-returning builds must agree, each must equal Lang.evalSrc (Lean) whenever that returns, and switching -O / the post-optimiser on must not turn a compiling value-returning build into a failing one. Kernel-checked part: the argument-addressing algebra shared by all builds (C01 Layer A); the CLVM-level pass soundness theorems (double-apply, null, brief path, classic optimiser via C04) are staged in Props/C02.lean as they are completed. Known genuine defects are listed in known_findings.json.",
